@@ -64,6 +64,9 @@ def cases(draw, max_n=40, mode=None):
         # timezone-aware timestamps: the buckets are those of the timestamps' own wall clock, labels keep the offset
         "tzoff": draw(st.sampled_from(TZOFFS)),
         "tf_form": draw(st.sampled_from(("str", "str", "lower", "enum"))),  # how the timeframe is spelled to the library
+        # how appended candles are encoded (the same data must land in every timeframe whatever the encoding: C19 judges
+        # the encodings as such, here they only vary the path by which candles reach the collapser)
+        "enc": draw(st.sampled_from(("candle", "candle", "candle", "dict", "list_first", "list_last"))),
     }
 
 
@@ -105,8 +108,14 @@ def drive(case):
         get = lambda: [snap(obj.candles(t.upper()), readings=False) for t in [name] + sib]  # noqa: E731
         collapse = obj._candles[name.upper()].collapse_candles
     calls = 0
+    enc = case.get("enc", "candle")
     for a, b in split_chunks(len(rest), case.get("chunks", [])):
-        obj.append(mk_candles(rest[a:b]))
+        if enc == "candle" or tz is not None:
+            obj.append(mk_candles(rest[a:b]))
+        else:
+            from hxv.props.c19 import encode
+
+            obj.append(encode(rest[a:b], enc))
         calls += 1
     for _ in range(case.get("extra", 0)):
         collapse()
